@@ -162,8 +162,38 @@ def _res_bool(f, *args):
     return "X non-bool " + repr(r)[:50]
 
 
+class CallTimeout(BaseException):
+    """a single library call ran longer than CALL_LIMIT seconds (BaseException: an `except Exception` in the library cannot swallow it)"""
+
+
+CALL_LIMIT = float(os.environ.get("VERIF_CALL_LIMIT", "20"))
+_limit = [CALL_LIMIT]       # halved after every call that ran into it (floor 0.5 s): a library that loops on a whole class of inputs must not stall the check
+
+
+def _on_alarm(signum, frame):
+    raise CallTimeout()
+
+
 def run_case(op: str, args: list, stdout_encoding: str = "utf-8") -> str:
-    """execute one protocol case against the real library; returns the canonical answer string"""
+    """execute one protocol case against the real library; returns the canonical answer string.  A call that does not return within CALL_LIMIT seconds is
+    answered `E NonTermination` (the properties demand termination; no model answer equals it, so it surfaces as a disagreement with a replayable request)."""
+    import signal
+    import threading
+    if threading.current_thread() is not threading.main_thread():
+        return _run_case(op, args, stdout_encoding)
+    old = signal.signal(signal.SIGALRM, _on_alarm)
+    signal.setitimer(signal.ITIMER_REAL, _limit[0])
+    try:
+        return _run_case(op, args, stdout_encoding)
+    except CallTimeout:
+        _limit[0] = max(0.5, _limit[0] / 2)
+        return "E NonTermination"
+    finally:
+        signal.setitimer(signal.ITIMER_REAL, 0)
+        signal.signal(signal.SIGALRM, old)
+
+
+def _run_case(op: str, args: list, stdout_encoding: str = "utf-8") -> str:
     if op == "build":
         a = list(args)
     else:
